@@ -14,6 +14,10 @@ PFX = {'p': 'urn:p', 'q': 'urn:q'}
 TEXTS = ['x', 'y', 'ab', 'a b', ' lead', 'trail ', '1', '2', '10', '2.5', '-3', '007', '1e2', 'NaN', '', 'x&y', 'a<b', '"q"', "it's",
          'é', '中文', 'k1', 'k2', 'k1 k2', 'en', 'true', 'false', 'A', 'aB', 'zz']
 WS = [' ', '\n', '\n  ', '\t', ' \n ', '\r\n']
+# long whitespace-only runs (deep indentation, blank lines): around 64 and beyond 1 KiB, where a pooled / chunked / "scan only short text"
+# treatment of whitespace would change (wave 5: long-whitespace-run-not-flagged was missed with runs of <= 3 characters only)
+WS_LONG = ['\n' + ' ' * 62, '\n' + ' ' * 63, ' ' * 65, '\n\n\n' + '\t' * 130, '\n' + ' ' * 1030]
+WS_RICH = WS + WS + WS_LONG
 ASTRAL = ['\U0001F600', 'a\U00010000b']
 
 
@@ -41,7 +45,7 @@ def documents(draw, max_nodes=40, max_depth=5, namespaces=True, ids=True, astral
 
     def text_piece():
         if ws_rich and draw(st.integers(0, 1)) == 0:
-            return draw(st.sampled_from(WS))
+            return draw(st.sampled_from(WS_RICH))
         k = draw(st.integers(0, 9))
         if k <= 5:
             return esc_text(draw(st.sampled_from(TEXTS)))
@@ -102,7 +106,7 @@ def documents(draw, max_nodes=40, max_depth=5, namespaces=True, ids=True, astral
                     break
                 k = draw(st.integers(0, 9))
                 if ws_rich and draw(st.integers(0, 2)) > 0:
-                    kids.append(draw(st.sampled_from(WS)))   # whitespace-only text between the children
+                    kids.append(draw(st.sampled_from(WS_RICH)))   # whitespace-only text between the children
                 if k <= 4:
                     kids.append(element(depth + 1, scope))
                 elif k <= 7:
